@@ -168,8 +168,10 @@ class EventList:
         if self.is_empty():
             raise IndexError("event list is empty")
 
+        # the heap array is only partially ordered: walk the events in the order
+        # in which they will be popped
         peek: list[SimulationEvent] = []
-        for event in self._events:
+        for event in sorted(self._events):
             if not event.CANCELED:
                 peek.append(event)
             if len(peek) >= n:
